@@ -338,7 +338,7 @@ def op_route_overlap(rng, spec, m):
     if not hs:
         return None
     hid, h = rng.choice(hs)
-    variant = rng.choice(["same_path_method", "any_vs_specific", "catchall_vs_param"])
+    variant = rng.choice(["same_path_method", "any_vs_specific", "catchall_vs_param", "param_renamed"])
     new = hid + "_dup"
     nh = {"ins": [], "path": h["path"], "methods": h["methods"]}
     if variant == "any_vs_specific":
@@ -354,6 +354,14 @@ def op_route_overlap(rng, spec, m):
             return None
         # `/a/{p}` vs `/a/{*rest}`: both can match `/a/x`
         nh["path"] = h["path"][:h["path"].index("{")] + "{*rest}"
+    elif variant == "param_renamed":
+        if "{" not in h["path"]:
+            return None
+        # `/a/{p}` vs `/a/{p_other}`: the same requests match both
+        import re as _re
+        nh["path"] = _re.sub(r"\{(\*?)(\w+)\}", r"{\1\2_other}", h["path"])
+        if isinstance(h["methods"], list):
+            nh["methods"] = [h["methods"][0]]
     spec["handlers"][new] = nh
     scope = m.reg[hid][0]
     bp = spec["bp"]
